@@ -70,7 +70,14 @@ def build(case):
         mods[f'M{i}'] = {'area': masses[i] * scale}
         if case['trials'] == 0:
             # 'use initial coordinates' mode: no random start, every module has a centre
-            mods[f'M{i}']['center'] = [W * (0.2 + 0.6 * ((i * 2) % n) / max(1, n - 1)), H * (0.25 + 0.5 * ((i * 3) % n) / max(1, n - 1))]
+            cx, cy = W * (0.2 + 0.6 * ((i * 2) % n) / max(1, n - 1)), H * (0.25 + 0.5 * ((i * 3) % n) / max(1, n - 1))
+            init = case.get('init', 'generic')
+            # degenerate starts: all given centres in a row, in a column, or at the same point
+            if init in ('row', 'same'):
+                cy = H / 2
+            if init in ('column', 'same'):
+                cx = W / 2
+            mods[f'M{i}']['center'] = [cx, cy]
     extra = case['extra']
     names = [f'M{i}' for i in range(n)]
     if extra == 'fixed':
@@ -129,6 +136,8 @@ def check_case(case, res):
     from frame.geometry.geometry import Shape
     W, H = case['die']
     attrs = dict(topo=case['topo'], extra=case['extra'], trials=case['trials'], masses=case['masses'])
+    if case.get('init'):
+        attrs['init'] = case['init']
     reset_frame_state()
     nl = build(case)
     before = snapshot(nl)
@@ -272,6 +281,10 @@ def run_shard(shard, tier, res):
             for extra in ('none', 'fixed', 'hard', 'pins'):
                 for die in ([6, 4], [10, 3]):
                     check_case(dict(topo=topo, masses='unequal', extra=extra, die=die, n=5, trials=0, answers=[0.5]), res)
+                    for init in ('row', 'column', 'same'):
+                        for ans in ([0.5, 0.2, 0.8, 0.35, 0.65], [0.9, 0.1, 0.6, 0.3, 0.45]):
+                            check_case(dict(topo=topo, masses='unequal', extra=extra, die=die, n=5, trials=0, init=init,
+                                            answers=ans), res)
     if last:
         res.samples.append(last)
 
